@@ -481,14 +481,14 @@ impl Scenario for C20 {
                     if !shared.is_empty() {
                         st.inc("probe.tick-buffer-nonempty-at-construction");
                     }
-                    let mut last_hint = usize::MAX;
+                    let mut hints: Vec<(usize, Option<usize>)> = Vec::new();
                     let mut got: Vec<SliderEvent> = Vec::new();
                     {
                         let mut it = SliderEventsIter::new(p.start, p.dur, p.vel, p.tick_dist, p.total, p.spans, &mut shared);
                         loop {
-                            let (lo, _) = it.size_hint();
-                            let _ = last_hint;
-                            last_hint = lo;
+                            if hints.len() < 4096 {
+                                hints.push(it.size_hint());
+                            }
                             match it.next() {
                                 Some(e) => got.push(e),
                                 None => break,
@@ -499,6 +499,13 @@ impl Scenario for C20 {
                         }
                     }
                     st.inc("ops.streams-completed");
+                    // size_hint before the k-th next(): lower bound <= events still to come <= upper bound
+                    for (k, (lo, hi)) in hints.iter().enumerate() {
+                        let remaining = got.len().saturating_sub(k);
+                        if *lo > remaining || hi.map_or(false, |h| h < remaining) {
+                            return Err(Violation::new("C20/iterator-api-inconsistent", "size_hint", format!("op #{i}: before event #{k} size_hint() was ({lo}, {hi:?}) but {remaining} events followed")));
+                        }
+                    }
                     st.add("steps.events", got.len() as u64);
                     let ticks = got.iter().filter(|e| e.kind == SliderEventType::Tick).count();
                     if ticks > 0 {
